@@ -532,8 +532,22 @@ class Stream(APIRegisterMixin):
         downstream: Stream
             The downstream stream to connect to
         """
+        if (self.loop is not None and downstream.loop is not None
+                and self.loop is not downstream.loop):
+            raise ValueError("Two different event loops active")
+        if (self.asynchronous is not None
+                and downstream.asynchronous is not None
+                and self.asynchronous is not downstream.asynchronous):
+            raise ValueError("Stream has both asynchronous and synchronous elements")
         self._add_downstream(downstream)
         downstream._add_upstream(self)
+        # the two sides form one pipeline now: what one of them knows about
+        # the event loop and the mode holds for the other as well
+        for known, other in ((self, downstream), (downstream, self)):
+            if known.loop is not None:
+                other._inform_loop(known.loop)
+            if known.asynchronous is not None:
+                other._inform_asynchronous(known.asynchronous)
 
     def disconnect(self, downstream):
         """ Disconnect this stream to a downstream element.
